@@ -67,9 +67,10 @@ def mode_cv(
     if classical:
         return np.array(len(freqs) * [Kb])
     else:
+        # exp(-x) instead of exp(x): exp(x) overflows at low temperature.
         x = freqs / Kb / temp
-        expVal = np.exp(x)
-        return Kb * x**2 * expVal / (expVal - 1.0) ** 2
+        expVal = np.exp(-x)
+        return Kb * x**2 * expVal / (1.0 - expVal) ** 2
 
 
 def mode_F(
@@ -123,9 +124,12 @@ def mode_S(
     if classical:
         return Kb - Kb * np.log(freqs / (Kb * temp))
     else:
-        val = freqs / (2 * Kb * temp)
-        return 1 / (2 * temp) * freqs * np.cosh(val) / np.sinh(val) - Kb * np.log(
-            2 * np.sinh(val)
+        # coth(x/2) and log(2 sinh(x/2)) written with exp(-x), x = freqs / (Kb T),
+        # so that nothing overflows at low temperature.
+        val = freqs / (Kb * temp)
+        expVal = np.exp(-val)
+        return 1 / (2 * temp) * freqs * (1.0 + expVal) / (1.0 - expVal) - Kb * (
+            val / 2 + np.log(1.0 - expVal)
         )
 
 
